@@ -56,3 +56,7 @@ claim('C13', 'Hypothesis-generated Bezier segments/paths and structured query po
       'About 16k (quick) / 300k (thorough) (curve, point) cases: t in range, the returned distances are attained at the returned parameters, and no sampled or refined point of the curve is closer than dmin / farther than dmax (1e-7 of the size); for paths the extreme over all segments and the reported index, plus closest/farthest_point_in_path agreement.',
       'Trusts: point() (C03); 4001-point sample with golden-section refinement as the reference optimum.',
       'DESIGN.md 2/C13')
+claim('C15', 'Hypothesis-generated segments (regular and with coincident end control points heading into 16+ directions, Python and numpy complex) and similarity transforms; oracle from reference derivatives, one-sided-limit rule at singular ends, covariance relations',
+      'About 12k (quick) / 300k (thorough) cases: unit_tangent, normal and curvature against exact-rational Bernstein derivatives (closed form for arcs) at regular points; at singular end points the tangent must equal the direction of the first non-vanishing derivative with the sign of the limit from inside, cross-checked against the neighbourhood; tangent and curvature must transform correctly under translation, rotation, +-uniform scaling and reversal.',
+      'Trusts: vp/ref/bez_ref.py, vp/ref/arc_ref.py; tolerances in the evidence assumptions; interior cusps excluded.',
+      'DESIGN.md 2/C15')
